@@ -100,6 +100,14 @@ def decorate(rng, form):
         form.setdefault("choices", []).extend({"list_name": "cf9", "name": n, "label": n.upper(), "cf": "x"} for n in ("a", "b"))
     if rng.random() < 0.25:
         forms.add_exotics(rng, form, ["search", "osm", "legacy_hint", "count_expr", "calc_msgs", "audit"], p=0.5)
+    if rng.random() < 0.3:
+        # several sheets whose names are near a supported one: the spelling hint lists them, in sheet order whatever the hash seed
+        if "settings" not in form:
+            for nm in rng.sample(["setting", "stetings", "setings", "Settingz", "settingss"], rng.randint(2, 4)):
+                form[nm] = [{"a": "b"}]
+        if "entities" not in form:
+            for nm in rng.sample(["entitie", "entitys", "Entites", "entitiez"], rng.randint(2, 3)):
+                form[nm] = [{"a": "b"}]
     return form
 
 
